@@ -13,16 +13,19 @@ CHECKS = {
    note="Trusted: rust_decimal / chrono arithmetic itself; CBMC float model (Float / and % only by identities). Int * / % exact-value cells are width-staged (32/16-bit operands quick, 64/32 thorough). The ~40 strict eval_rec arms are read, not executed: an arm rewired to another function is not decided.", ref="3/C02"),
  "C03": dict(engine="kani", technique="Kani/CBMC harness per (operator, ordered non-None tag pair) outside the supported set: result must be Err(InvalidType) for all payloads",
    text=BOUNDED + "Every unsupported ordered pair of non-None operand tags of every strict operator (all Int/Float/Decimal mixes included) yields Err(InvalidType) for every payload.",
-   note="and/or/eq are async and out of CBMC's reach (only if's condition and bool::try_from are decided, under C05/C17); quick runs all numeric mixes + all unary + a seed-rotated quarter of the rest.", ref="3/C03"),
+   note="Equality of different types is decided on the real equality helper with the eval_rec oracle (str \"1\" / dec / int / float pairs). and/or are out of CBMC's reach (only if's condition and bool::try_from are decided, under C05/C17); quick runs all numeric mixes + all unary + a seed-rotated quarter of the rest.", ref="3/C03"),
  "C04": dict(engine="kani", technique="Kani/CBMC harness per operator cell with None in an operand position x every tag of the other operand",
    text=BOUNDED + "Every operator with None in each operand position against all 10 tags of the other operand returns exactly the statement's result and never an error.",
-   note="eq/neq's None rule lives in async eq (out of reach); deep-inside None is the composition through eval_rec (outside).", ref="3/C04"),
+   note="The None rule of == / != is decided on the real equality helper with the eval_rec oracle (or on the strict functions if the source implements them that way); deep-inside None is the composition through eval_rec (outside).", ref="3/C04"),
  "C07": dict(engine="z3", technique="z3 bounded CFG equivalence (acceptance + derivation trees) between the grammar extracted from reval.lalrpop and a reference precedence table over a symbolic token vector; Kani harnesses for the Expr constructors",
    text=BOUNDED + "For every token string up to the bound the extracted grammar and the reference table accept the same strings with the same trees (UNSAT per length); every public constructor used by the actions builds exactly its variant (Kani). Witnesses are parsed by the real parser before they count.",
    note="Trusted: lalrpop generates the parser for the grammar text and rejects ambiguity; one lexeme per token class (lexer is C08). Bound: 7 tokens quick, 9 thorough.", ref="3/C07"),
- "C14": dict(engine="z3", technique="z3 bounded CFG equivalence with start symbol Rule against the reference `(@key: expr;)* expr`",
-   text=BOUNDED + "Grammar part only: the Rule/MetaItem productions derive exactly `(@ key : expr ;)* expr` with items in textual order and the expression subtree equal to the parse of the remaining tokens.",
-   note="Weakest claim of the set: name/description precedence, last-wins, missing-name error and comment-line extraction (RuleBuilder, Rule::parse) are NOT decided.", ref="3/C14"),
+ "C14": dict(engine="z3", technique="z3 bounded CFG equivalence with start symbol Rule against the reference `(@key: expr;)* expr`; Kani harnesses on RuleBuilder::set_name / set_description / build",
+   text=BOUNDED + "The Rule/MetaItem productions derive exactly `(@ key : expr ;)* expr` with items in textual order and the expression subtree equal to the parse of the remaining tokens (z3); RuleBuilder's name precedence (metadata over comment), description precedence and the missing-name error (Kani).",
+   note="Weakest claim of the set: last-occurrence-wins, rejection of non-constant / non-string-name metadata (RuleBuilder::parse: no CBMC verdict even for one entry) and comment-line extraction in Rule::parse are NOT decided.", ref="3/C14"),
+ "C05": dict(engine="kani", technique="Kani/CBMC on the real lazy helpers (`iif`, the equality helper of == / !=) with Expr::eval_rec stubbed by a logging oracle; exact evaluation log and result asserted for every kind of operand result",
+   text=BOUNDED + "`if` evaluates its condition and then exactly the selected branch (nothing after a failing or non-boolean condition); == / != do not evaluate the right operand when the left is None and otherwise evaluate both once, left first. One harness per kind of condition / operand result with symbolic payloads; native replay through the public API with a call-logging non-cacheable user function.",
+   note="Only `if`, `==`, `!=`. NOT decided: `and` / `or` (four formulations exhausted 37-46 GB without a verdict), list / map / call-argument order, operand order and `?` short-circuit of the ~40 strict arms inside eval_rec. The oracle replaces the recursive dispatcher: no real sub-expression is evaluated under Kani.", ref="3/C05, 10.2"),
  "C06": dict(engine="kani", technique="Kani/CBMC on reval's parse helpers, string unescaping and the verbatim IndexExpr action over every ASCII token text of listed lengths admitted by the token's regex (acceptor compiled from the source regex)",
    text=BOUNDED + "For every regex token whose text reaches reval's own code and every listed length, all ASCII texts admitted by the token's regex are run through the helper / action; Kani's panic, unwrap, slice-bound and char-boundary checks decide (e.g. the 20/21-digit list index).",
    note="Lexer (regex-automata) and lalrpop driver totality are third-party and outside; float/decimal parsers and integer parsers at >=20 digits are stubbed total; Rule::parse comment extraction and RuleBuilder outside; string literals: shapes with <=2 body characters.", ref="3/C06"),
@@ -51,7 +54,7 @@ NA = {
  "C19": "native stack exhaustion is not represented in CBMC's memory model and occurs at depths (1e2-1e5 frames) far beyond any unwinding that terminates here",
 }
 PENDING = {p: "check under construction in this session (see DESIGN.md section 3); not claimed until it is registered here" for p in
-           ["C05"]}
+           []}
 def main():
     checks = []
     for pid, c in CHECKS.items():
